@@ -311,8 +311,12 @@ func boolDNF(c *ssa.Call, want bool, depth int) ([][]string, bool) {
 
 // boolDNFIdx: conditions under which result #idx (a bool) of the call is `want`.
 func boolDNFIdx(c *ssa.Call, idx int, want bool, depth int) ([][]string, bool) {
-	callee := c.Call.StaticCallee()
-	if callee == nil || depth > 3 || !curProgRoot(callee) || len(callee.Blocks) == 0 {
+	return boolDNFOf(c.Call.StaticCallee(), c.Call.Args, idx, want, depth)
+}
+
+// boolDNFOf: the conditions, in the terms of the given arguments, under which result #idx of callee equals want.
+func boolDNFOf(callee *ssa.Function, args []ssa.Value, idx int, want bool, depth int) ([][]string, bool) {
+	if callee == nil || depth > 3 || !(curProgRoot(callee) || callee.Parent() != nil) || len(callee.Blocks) == 0 {
 		return nil, false
 	}
 	if idx >= callee.Signature.Results().Len() {
@@ -325,7 +329,7 @@ func boolDNFIdx(c *ssa.Call, idx int, want bool, depth int) ([][]string, bool) {
 		return nil, false
 	}
 	env := map[*ssa.Parameter]string{}
-	for i, a := range c.Call.Args {
+	for i, a := range args {
 		if i < len(callee.Params) {
 			env[callee.Params[i]] = Desc(a)
 		}
